@@ -3,11 +3,11 @@
 A case line is  "se <seed> <session_timeout_s> <max_idle_sessions> <op>*"  (ops documented in the
 driver).  All randomness comes from the random.Random handed in (tie.rng_for)."""
 
-RX_KINDS = "gcsoOdDahbnBxvempqPuwUy"
+RX_KINDS = "gcsoOdDahbnBxvempqPuwUyzZY"
 # weights: plain traffic dominates, every reference holder appears regularly
 RX_WEIGHTS = {
     "g": 10, "c": 6, "s": 6, "o": 5, "O": 5, "d": 2, "D": 2, "a": 4, "h": 4,
-    "b": 2, "n": 2, "B": 1, "x": 1, "v": 1, "e": 1, "m": 3, "p": 2, "q": 1, "P": 1, "u": 2, "w": 2, "U": 1, "y": 1,
+    "b": 2, "n": 2, "B": 1, "x": 1, "v": 1, "e": 1, "m": 3, "p": 2, "q": 1, "P": 1, "u": 2, "w": 2, "U": 1, "y": 1, "z": 1, "Z": 1, "Y": 1,
 }
 
 
@@ -62,7 +62,7 @@ def gen_history(r, stale_etag=False, max_peers=None):
     elif focus == "hold":
         weights.update({"h": 14})
     elif focus == "observe":
-        weights.update({"o": 12, "O": 12, "d": 5, "D": 5, "u": 10, "w": 10, "U": 6, "y": 4})
+        weights.update({"o": 12, "O": 12, "d": 5, "D": 5, "u": 10, "w": 10, "U": 6, "y": 4, "z": 5, "Z": 5, "Y": 4})
     elif focus == "queue":
         weights.update({"s": 14, "a": 8, "O": 8, "m": 8})
     advs = boundary_advances(timeout)
@@ -135,6 +135,8 @@ def boundary_cases():
     # several observations of one resource by one peer (other query, other token): a disconnect,
     # a Reset, a cancel and the timeout have to deal with all of them
     out.append("se 28 1 0 rx:0:o rx:0:u rx:0:w rx:1:u rx:1:U disc:0 adv:1000 prep disc:1 adv:1000 prep")
+    # cancel with a token other than the registration's
+    out.append("se 30 300 0 rx:0:u rx:0:z rx:0:o rx:0:Z rx:1:O rx:1:Y rx:1:z free")
     out.append("se 29 1 0 rx:0:u rx:0:w rx:0:y adv:1000 prep notify:0 prep disc:0 adv:1000 prep rx:0:o rx:0:u free")
     # integer widths: seconds * 1000 must not be cut to 32 (or 31) bits
     for t in WIDE_TIMEOUTS:
@@ -177,8 +179,10 @@ def gen_client_history(r):
     while len(ops) < nops:
         i = r.randrange(nslots)
         x = r.random()
-        if x < 0.22:
-            ops.append("new:%d" % i)
+        if x < 0.20:
+            ops.append("%s:%d" % (r.choice(["new", "newl"]), i))
+        elif x < 0.28:
+            ops.append("dup:%d" % i)
         elif x < 0.45:
             ops.append("send:%d:%s" % (i, r.choice("cccn")))
         elif x < 0.58:
@@ -215,6 +219,10 @@ def client_boundary_cases():
         "sc 34 new:0 send:0:c new:1 send:1:c rel:1 free",
         "sc 35 new:0 ref:0 rel:0 send:0:c rel:0 new:0 send:0:c send:0:c resp:0 rel:0 resp:0",
         "sc 36 new:0 new:1 new:2 rel:1 send:0:c send:2:c relall adv:1000 prep resp:2 resp:0",
+        # a refused duplicate (same local and remote address) leaves the existing sessions alone
+        "sc 37 newl:0 new:1 dup:0 send:0:c resp:0 dup:1 send:1:c rel:1 resp:1 free",
+        "sc 38 newl:0 dup:0 dup:0 rel:0 newl:0 dup:0 newl:1 dup:1 dup:0 relall",
+        "sc 39 newl:0 newl:1 newl:2 dup:1 send:0:c send:2:c resp:0 rel:2 resp:2 free",
     ]
 
 
